@@ -234,6 +234,68 @@ theorem mainLoop_of_reach' (u : User K ε) (o : Oracles K δ) (c : Cfg K) (s0 s 
     rw [show fuel + (k + 1) = fuel + 1 + k by omega, this]
     simp only [mainLoop, hg, if_true, hb, bind, Except.bind]
 
+/-- the loop body never changes the evaluated tolerance `gtol` -/
+theorem iterBody_gtol (u : User K ε) (o : Oracles K δ) (c : Cfg K) (s s' : St K) (flow : Flow)
+    (h : iterBody u o c s = .ok (s', flow)) : s'.gtol = s.gtol := by
+  unfold iterBody at h
+  simp only [bind, Except.bind] at h
+  split at h
+  · simp at h
+  · rename_i r hr
+    obtain ⟨sfL, stp?, olog⟩ := r
+    dsimp only at h
+    cases stp? with
+    | none =>
+      simp only [pure, Except.pure, Except.ok.injEq] at h
+      unfold iterFail at h
+      dsimp only at h
+      split at h <;> (simp only [Prod.mk.injEq] at h; rw [← h.1])
+    | some stp =>
+      simp only at h
+      unfold iterStep at h
+      simp only [bind, Except.bind] at h
+      split at h
+      · simp at h
+      · rename_i e he
+        split at h
+        · simp at h
+        · rename_i r2 hr2
+          obtain ⟨s1, stop⟩ := r2
+          have h1 : s1.gtol = s.gtol := by
+            unfold afterEval at hr2
+            split at hr2
+            · simp only [bind, Except.bind] at hr2
+              split at hr2
+              · simp at hr2
+              · simp only [pure, Except.pure, Except.ok.injEq] at hr2
+                unfold stopTests at hr2
+                split at hr2
+                · simp only [Prod.mk.injEq] at hr2; rw [← hr2.1]; rfl
+                · split at hr2 <;> (simp only [Prod.mk.injEq] at hr2; rw [← hr2.1]; rfl)
+            · simp only [pure, Except.pure, Except.ok.injEq] at hr2
+              unfold stopTests at hr2
+              split at hr2
+              · simp only [Prod.mk.injEq] at hr2; rw [← hr2.1]
+              · split at hr2 <;> (simp only [Prod.mk.injEq] at hr2; rw [← hr2.1])
+          dsimp only at h
+          split at h
+          · simp only [pure, Except.pure, Except.ok.injEq, Prod.mk.injEq] at h
+            rw [← h.1]; exact h1
+          · split at h
+            · simp at h
+            · rename_i s2 hs2
+              simp only [pure, Except.pure, Except.ok.injEq, Prod.mk.injEq] at h
+              rw [← h.1]
+              obtain ⟨lg, cbs, t, su, h2⟩ := doCallback_frame u c _ s2 hs2
+              rw [h2]
+              show (memStep c s1).gtol = s.gtol
+              rw [← h1]; rfl
+
+theorem reach_gtol (u : User K ε) (o : Oracles K δ) (c : Cfg K) (s0 s : St K) (hr : Reach u o c s0 s) : s.gtol = s0.gtol := by
+  induction hr with
+  | refl => rfl
+  | step _ _ hb ih => rw [iterBody_gtol u o c _ _ _ hb, ih]
+
 /-- the Fortran floor `f'' := max(f'', eps·f''₀)` of the Cauchy search stays inactive at this state: for every direction met
 along the search (the initial one with some components zeroed) the curvature of the model is at least `eps·f''₀` -/
 def FloorOK (c : Cfg K) (e : K) (s : St K) : Prop :=
@@ -285,7 +347,7 @@ theorem state_direction_descent [Dcsrch.DcOps K] (u : User K ε) (c : Cfg K) (e 
 open C06 in
 /-- **C01 (every line search of a fresh run of the complete model starts along a descent direction)** — fresh run, no scaler, no
 update function, no target, constant `gtol`; well-formed box of the size of `x0`; gradients of the length of their argument;
-`maxcor ≥ 1`, `eps ≥ 0`. At every loop-head state the run reaches, if the loop goes on there (`0 ≤ gtol < |proj g|`) and the Fortran
+`maxcor ≥ 1`, `eps ≥ 0`, `gtol ≥ 0`. At every loop-head state the run reaches, if the loop goes on there (`gtol < |proj g|`) and the Fortran
 floor is inactive, `gᵀ(x̄ − x) < 0` for the point `x̄` the composed kernel models return. -/
 theorem run_direction_descent [Dcsrch.DcOps K] (u : User K ε) (c : Cfg K) (e a : K)
     (hck : c.checkpoint = none) (hS : c.hasScaler = false) (hU : c.hasUpdate = false) (hT : c.ftarget = none)
@@ -293,10 +355,12 @@ theorem run_direction_descent [Dcsrch.DcOps K] (u : User K ε) (c : Cfg K) (e a 
     (hn : 0 < c.lb.length) (he : 0 ≤ c.epsSY) (hgl : GradLen u c)
     (i0 : Init K) (s0 s : St K) (hi0 : initEval u c = .ok i0) (hp0 : prepare u c i0 = .ok s0)
     (hr : Reach u (concreteOracles c.lb c.ub e) c s0 s)
-    (hgt : 0 ≤ s.gtol) (hguard : guard c s = true) (hfl : FloorOK c e s) :
+    (ha : 0 ≤ a) (hguard : guard c s = true) (hfl : FloorOK c e s) :
     vec s.x.length s.g ⬝ᵥ
-      (vec s.x.length ((concreteOracles c.lb c.ub e).xbar s.x s.g s.mats) - vec s.x.length s.x) < 0 :=
-  state_direction_descent u c e s
+      (vec s.x.length ((concreteOracles c.lb c.ub e).xbar s.x s.g s.mats) - vec s.x.length s.x) < 0 := by
+  obtain ⟨⟨X', G', hre⟩, -, -, -⟩ := fresh_rinv u c a hck hS hU hT hg hbox hx0 hgl i0 s0 hi0 hp0
+  have hgt : 0 ≤ s.gtol := by rw [reach_gtol u _ c s0 s hr, hre.gtol]; exact ha
+  exact state_direction_descent u c e s
     (reach_dinv u _ c hU hm hbox hgl (xbarLen_concrete c e hbox) s0 s
       (fresh_dinv u c a hck hS hU hT hg hbox hx0 hgl i0 s0 hi0 hp0) hr)
     hbox hn he hgt hguard hfl
@@ -314,7 +378,7 @@ def runCheck : Bool :=
   match initEval simUser simCfg with
   | .ok i0 =>
     match prepare simUser simCfg i0 with
-    | .ok s0 => guard simCfg s0 && decide (0 ≤ s0.gtol) && decide (s0.X.length = 1)
+    | .ok s0 => guard simCfg s0 && decide (s0.X.length = 1)
     | _ => false
   | _ => false
 
@@ -329,11 +393,11 @@ example : ∃ s0 : St ℚ, vec s0.x.length s0.g ⬝ᵥ
     split at h
     · rename_i s0 hp0
       simp only [Bool.and_eq_true, decide_eq_true_eq] at h
-      obtain ⟨⟨hg, hgt⟩, hX⟩ := h
+      obtain ⟨hg, hX⟩ := h
       refine ⟨s0, run_direction_descent simUser simCfg 0 (1 / 1000) rfl rfl rfl rfl rfl (by decide)
         (by simp only [simCfg, BoxOk]; norm_num) rfl (by decide) (le_refl _)
         (by intro x g h; simp only [gradSpec, simCfg, simUser, Except.ok.injEq] at h; rw [← h])
-        i0 s0 s0 hi0 hp0 Reach.refl hgt hg ?_⟩
+        i0 s0 s0 hi0 hp0 Reach.refl (by norm_num) hg ?_⟩
       intro dd _ _
       rw [zero_mul, if_neg (by omega), one_mulVec]
       exact Finset.sum_nonneg fun j _ => mul_self_nonneg (dd j)
